@@ -39,10 +39,24 @@ def registered():
     return out
 
 
+BIN = os.environ.get("GRPCHANLINT_BIN", os.path.join(V, "bin/grpchanlint"))
+
+
 def run_checks(repo, props):
+    """One process for all properties (the program is loaded once); the violation lines are attributed to their
+    property by the rule id they carry. A run that ends with a check error is repeated property by property."""
+    import re
     fired = {}
+    if len(props) > 1:
+        r = subprocess.run([BIN, "-prop", ",".join(props), "-repo", repo, "-no-evidence", "-verif", V], capture_output=True, text=True)
+        if r.returncode != 2:
+            for l in (r.stdout + r.stderr).splitlines():
+                m = re.search(r": \[(C\d\d)/[RT]\d+\] ", l)
+                if m and m.group(1) in props:
+                    fired.setdefault(m.group(1), []).append(l)
+            return fired
     for p in props:
-        r = subprocess.run([os.path.join(V, "bin/grpchanlint"), "-prop", p, "-repo", repo, "-no-evidence", "-verif", V],
+        r = subprocess.run([BIN, "-prop", p, "-repo", repo, "-no-evidence", "-verif", V],
                            capture_output=True, text=True)
         lines = [l for l in (r.stdout + r.stderr).splitlines() if ": [" in l and "] " in l]
         if r.returncode == 2:
@@ -195,12 +209,18 @@ def main():
         props = registered()
         sd = os.path.join(V, "seeded")
         missed = 0
-        for sid in sorted(os.listdir(sd)):
+        import concurrent.futures as cf
+        sids = [sid for sid in sorted(os.listdir(sd)) if os.path.exists(os.path.join(sd, sid, "patch.diff"))]
+        jobs = int(os.environ.get("JOBS", "10"))
+        with cf.ThreadPoolExecutor(max_workers=jobs) as ex:
+            results = list(ex.map(lambda sid: evaluate(os.path.join(sd, sid), props, tests=False), sids))
+        for sid, res in zip(sids, results):
             mdir = os.path.join(sd, sid)
-            if not os.path.exists(os.path.join(mdir, "patch.diff")):
-                continue
             meta = json.load(open(os.path.join(mdir, "meta.json")))
-            res = evaluate(mdir, props, tests=False)
+            if not res["confirm"].get("applies"):
+                print("%-28s SKIP (patch no longer applies)" % sid)
+                missed += 1
+                continue
             fired = res.get("fired", {})
             own = meta.get("property")
             st = "CAUGHT" if fired.get(own) else ("caught-by-other" if fired else "MISSED")
